@@ -19,6 +19,7 @@ import SvgVerif.Model.Reverse
 import SvgVerif.Model.ArcBezier
 import SvgVerif.Model.ArcLen
 import SvgVerif.Model.DocShape
+import SvgVerif.Model.Reify
 open Svg Svg.Wire
 
 def fmtMat (m : Mat Float) : String :=
@@ -319,12 +320,35 @@ def dimOf (s : String) : Doc.Dim Float :=
 def fmtOptNat : Option (Option Nat) → String
   | none => "unset" | some none => "none" | some (some v) => toString v
 
+/-- what `reify()` makes of the shape: new numbers, residual matrix, stroke width -/
+def fmtReified (s : Doc.ShapeOut Float) : String :=
+  let pairs : List Float → List (Pt Float)
+    | l => (List.range (l.length / 2)).map fun i => ⟨l.getD (2 * i) 0, l.getD (2 * i + 1) 0⟩
+  let (nums, m) : List Float × Mat Float :=
+    if s.tag = "rect" then
+      match s.nums with
+      | [x, y, w, h] =>
+        let (rx, ry) := rectRadii (s.opts.getD 0 none) (s.opts.getD 1 none) w h
+        Reify.rect x y w h rx ry s.m
+      | _ => (s.nums, s.m)
+    else if s.tag = "circle" ∨ s.tag = "ellipse" then
+      match s.nums with
+      | [cx, cy, rx, ry] => Reify.round cx cy rx ry s.m
+      | _ => (s.nums, s.m)
+    else if s.tag = "line" ∨ s.tag = "polyline" ∨ s.tag = "polygon" then
+      let r := Reify.points (pairs s.nums) s.m
+      (r.1.flatMap fun p => [p.x, p.y], r.2)
+    else ([], Mat.identity)
+  let sw := if Reify.strokeRescaled s.tag s.m then Reify.strokeWidth s.sw s.m s.vt s.nonScaling else s.sw
+  "R: " ++ toString nums.length ++ " " ++ " ".intercalate (nums.map hexOfFloat) ++ " " ++ fmtMat m ++ " " ++ hexOfFloat sw
+
 def fmtShape (s : Doc.ShapeOut Float) : String :=
   " ".intercalate [hexOfString s.tag, (match s.id with | some i => "i" ++ hexOfString i | none => "-"),
     fmtOptNat s.fill, fmtOptNat s.stroke, hexOfFloat s.sw, bstr s.nonScaling, fmtMat s.m, fmtMat s.vt,
     toString s.nums.length, " ".intercalate (s.nums.map hexOfFloat),
     " ".intercalate (s.opts.map fun o => match o with | some x => hexOfFloat x | none => "-"),
     "D:" ++ hexOfString s.d,
+    fmtReified s,
     -- a path element's data as the character-level parser (Model/PathParse) reads it
     (if s.tag = "path" then "P: " ++ fmtPSegs (parsePath numOvf [] s.d.toList).1 else "P:")]
 
